@@ -3,7 +3,7 @@
 micro-http that lives in a scratch worktree (never /repo), with scratch work/evidence/replay dirs
 (env overrides of tools/vcheck.py).  Any check that does not exit 0 here is a false alarm of the
 machinery (or the refactoring is not behaviour-preserving -- decide by reading the replay).
-Usage: rf_eval.py <name> <worktree> [check ...]   ->  /verif/refactors/<name>/result.json"""
+Usage: rf_eval.py <name> <worktree>|--from-diff [check ...]   ->  /verif/refactors/<name>/result.json"""
 import json, os, shutil, subprocess, sys, time
 
 VERIF = os.path.dirname(os.path.dirname(os.path.abspath(__file__)))
@@ -12,6 +12,14 @@ ALL = ["C%02d" % i for i in range(1, 19)]
 def main():
     name, wt = sys.argv[1], sys.argv[2]
     checks = sys.argv[3:] or ALL
+    made = False
+    if wt == "--from-diff":
+        # re-evaluation: a fresh scratch worktree with the stored refactoring applied
+        wt = "/tmp/rf-" + name
+        subprocess.run("git -C /repo worktree remove --force %s" % wt, shell=True, stdout=subprocess.DEVNULL, stderr=subprocess.DEVNULL)
+        subprocess.run("git -C /repo worktree add -q --detach %s HEAD" % wt, shell=True, check=True)
+        subprocess.run("git apply %s" % os.path.join(VERIF, "refactors", name, "refactor.diff"), shell=True, cwd=wt, check=True)
+        made = True
     d = os.path.join(VERIF, "refactors", name)
     os.makedirs(d, exist_ok=True)
     wk = "/tmp/rfw-" + name
@@ -36,6 +44,9 @@ def main():
         json.dump(out, open(rp, "w"), indent=1)
         if all(v["exit"] == 0 for v in out.values()):
             shutil.rmtree(wk, ignore_errors=True)
+        if made:
+            subprocess.run("git -C /repo worktree remove --force %s" % wt, shell=True, stdout=subprocess.DEVNULL, stderr=subprocess.DEVNULL)
+            shutil.rmtree(wt, ignore_errors=True)
 
 if __name__ == "__main__":
     main()
